@@ -97,6 +97,18 @@ Theorem C04_own_exports_last : forall ms provs self, exists deps, imports_postor
 Proof. exact imports_postorder_self_last. Qed.
 Print Assumptions C04_own_exports_last.
 
+(* "dependencies first": what a module of the list imports stands before it — its exports are merged earlier, the
+   importer's later and on top — unless the imported module leads back to the importer (an import cycle) *)
+Theorem C04_dependencies_first :
+  forall t pf bd b, load t pf bd = Ok b ->
+  forall builder bname binary cli_selects disabled0 rst, In binary (all_modules b) ->
+  resolve_build b builder bname binary cli_selects disabled0 = Ok rst ->
+  forall self y z, In self (sel rst) ->
+  In y (imports_postorder (sel rst) (provby rst) self) -> edge (sel rst) (provby rst) y z -> ~ reach (sel rst) (provby rst) z y ->
+  before z y (imports_postorder (sel rst) (provby rst) self).
+Proof. exact build_imports_dependencies_first. Qed.
+Print Assumptions C04_dependencies_first.
+
 (* two modules that import each other see each other's exports (the closure is complete on cycles) *)
 Definition ex_importer (name : str) (imports : list dep) : module :=
   {| m_name := name; m_context_name := S_ "default"; m_selects := []; m_imports := imports; m_provides := None; m_conflicts := None;
